@@ -63,10 +63,16 @@ var chkVerify = vf.Register("bytecode_wellformed", func(k *vf.C, c *SrcCase) err
 	k.Class("origin:" + c.Origin)
 	if p == nil {
 		k.Class("rejected")
+		if c.Template != "" {
+			k.Class("template:" + c.Template + ":rejected")
+		}
 		_ = rej
 		return nil
 	}
 	k.Class("accepted")
+	if c.Template != "" {
+		k.Class("template:" + c.Template + ":accepted")
+	}
 	viol, st := bcverify.Verify(p, lua.VerifStringConstants)
 	if len(viol) > 0 {
 		return fmt.Errorf("%d structural violation(s), first: %s", len(viol), strings.Join(viol[:min(len(viol), 3)], " | "))
@@ -230,7 +236,8 @@ var templates = map[string]func(n, m int) string{
 	"long_body": func(n, m int) string {
 		var b strings.Builder
 		body := func() {
-			for i := 0; i < n/2; i++ {
+			// x is a local: one instruction per statement
+			for i := 0; i < n; i++ {
 				b.WriteString("x = x + 1\n")
 			}
 		}
@@ -314,7 +321,7 @@ var grids = []grid{
 	{"constructor", []int{0, 1, 49, 50, 51, 99, 100, 101, 150, 500, 25549, 25550, 25551, 25552, 25599, 25600, 25601, 25650, 30000}, []int{0, 1, 2, 7, 50, 51}, true},
 	{"call_args", []int{0, 1, 2, 50, 100, 199, 200, 201, 249, 250, 251, 255, 256, 260}, []int{0, 1}, false},
 	{"nesting", []int{1, 2, 10, 50, 100, 150, 190, 195, 199, 200, 201, 220}, []int{0, 1, 2, 3}, false},
-	{"long_body", []int{1, 10, 1000, 131060, 131068, 131070, 131071, 131072, 131073, 131080, 140000, 262150}, []int{0, 1, 2, 3, 4, 5}, true},
+	{"long_body", []int{1, 10, 1000, 131060, 131066, 131067, 131068, 131069, 131070, 131071, 131072, 131073, 131074, 131075, 131080, 140000, 262150}, []int{0, 1, 2, 3, 4, 5}, true},
 	{"chains", []int{1, 2, 50, 100, 199, 200, 201, 255, 256, 300, 1000}, []int{0, 1, 2, 3}, false},
 	{"upvalues", []int{1, 30, 59, 60, 61, 100}, []int{0}, false},
 }
@@ -328,9 +335,6 @@ func TestTemplates(t *testing.T) {
 			for _, m := range g.ms {
 				i++
 				if i%sn != si {
-					continue
-				}
-				if g.big && !vf.Thorough() && n > 1000 && (i/sn)%2 == 1 && g.name == "long_body" {
 					continue
 				}
 				chkVerify.Run(t, &SrcCase{Origin: "template:" + g.name, Template: g.name, N: n, M: m})
